@@ -136,7 +136,7 @@ def layout(ctx, rule="C01.layout"):
                 "receives the axes of the target modes (bra axes together with the conjugated matrix) and the tensor "
                 "returned has the canonical layout again.  Index arithmetic is folded by the analyser; a construct it "
                 "does not model makes the case 'not analysed' and the run fails closed.")
-    N = 5 if ctx.tier == "thorough" else 4
+    N = 6 if ctx.tier == "thorough" else 4
     fs = {qn: ctx.tree.func(FC, f"Circuit.{qn}") for qn in ("apply_twomode_gate", "apply_gate_BLAS", "_apply_channel",
                                                                "prepare_multimode")}
     total_na = 0
